@@ -687,6 +687,8 @@ def correspondence(rep, rng, tier):
             seen.add(k)
             uniq.append(b)
     rep.broken[:] = uniq
+    from .. import scenhist
+    scenhist.section(rep, rng, tier, 'C11')
 
 
 def replay(path):
@@ -698,6 +700,13 @@ def replay(path):
             print(' section %s: %s\n   model: %s\n   impl : %s' % (d['section'], d['line'], d['model'], d['impl']))
         return 1
     rp = r['replay']
+    if rp.get('section') == 'scenario-history':
+        from .. import scenhist
+        bad, lines = scenhist.replay(rp)
+        print('\n'.join(lines))
+        if bad:
+            print(f'VIOLATION property=C11 replay={path}')
+        return 1 if bad else 0
     sec, case = rp['section'], rp['case']
     if sec.startswith('decoders-history'):
         from .. import neighbours
